@@ -9,6 +9,12 @@ S2  the same runs dump (input, expected) states; every one is executed against t
       * MCAlign  -> get_codes / get_symbols / get_gapped_sequences / trace_from_strings /
                     fasta.set_alignment+get_alignment / Alignment.__getitem__ / find_terminal_gaps /
                     remove_terminal_gaps / remove_gaps / identity functions / score
+      * MCConv   -> typed alignments (rows of every combination of alphabets, in every order):
+                    get_codes / get_symbols / get_gapped_sequences / str() / trace_from_strings /
+                    FASTA and back / score over two alphabets / identity; FASTA texts that use
+                    '-' and further gap characters mixed, parsed with every value (0..3 characters,
+                    every order, tuple / list / str) of additional_gap_chars, written back and
+                    parsed again
       * MCCigar  -> write_alignment_to_cigar (string and tuple form) + read back,
                     read_alignment_from_cigar on specification-built CIGARs + write again
       * MCMsa    -> every complete merge history is forced through the real align_multiple
@@ -42,25 +48,42 @@ def _np():
     return np
 
 
-def mkseq(codes, protein=False):
-    """Symbol codes -> Sequence (codes 0..3 are A C G T / A C D E)."""
+# token map of AlignConv!Kinds: the real alphabet behind every kind (its symbols are AlignConv!AlphabetOf)
+_ALPHABETS = {}
+
+
+def alphabet_of(kind):
+    import biotite.sequence as bs
+
+    if not _ALPHABETS:
+        _ALPHABETS.update({"nuc": bs.NucleotideSequence.alphabet_unamb, "amb": bs.NucleotideSequence.alphabet_amb,
+                           "prot": bs.ProteinSequence.alphabet, "gen": bs.Alphabet(["T", "G", "C", "A", "W"]),
+                           "let": bs.LetterAlphabet("tgca+")})
+    return _ALPHABETS[kind]
+
+
+def mkseq(codes, protein=False, kind=None):
+    """Symbol codes -> Sequence of the given kind (AlignConv!Kinds; default nuc / prot)."""
     import biotite.sequence as bs
 
     np = _np()
-    if protein:
+    kind = kind or ("prot" if protein else "nuc")
+    if kind == "prot":
         s = bs.ProteinSequence()
+    elif kind in ("nuc", "amb"):
+        s = bs.NucleotideSequence(ambiguous=(kind == "amb"))
     else:
-        s = bs.NucleotideSequence()
+        s = bs.GeneralSequence(alphabet_of(kind))
     s.code = np.array(list(codes), dtype=np.uint8)
     return s
 
 
-def mkaln(seqs, tr, protein=False):
+def mkaln(seqs, tr, protein=False, kinds=None):
     import biotite.sequence.align as al
 
     np = _np()
     trace = np.array(tr, dtype=np.int64).reshape(len(tr), len(seqs))
-    return al.Alignment([mkseq(s, protein) for s in seqs], trace)
+    return al.Alignment([mkseq(s, protein, kinds[k] if kinds else None) for k, s in enumerate(seqs)], trace)
 
 
 def proj_seq(s):
@@ -109,18 +132,40 @@ def call(fn):
         return "Rejected", f"{type(e).__name__}: {e}"
 
 
-def matrix_for(M, protein=False):
-    """Specification matrix (rows over codes 0..k-1) -> SubstitutionMatrix over the alphabet."""
-    import biotite.sequence as bs
+def matrix_for(M, kinds, entries=None):
+    """Specification matrix (rows over codes 0..k-1, or entries [a, b, value]; the rest is 0) ->
+    SubstitutionMatrix over the alphabets of rows 1 and 2 (two rows) / the common alphabet."""
     import biotite.sequence.align as al
 
     np = _np()
-    alph = bs.ProteinSequence.alphabet if protein else bs.NucleotideSequence.alphabet_unamb
-    m = np.zeros((len(alph), len(alph)), dtype=np.int32)
-    for i, row in enumerate(M):
+    a1 = alphabet_of(kinds[0])
+    a2 = alphabet_of(kinds[1] if len(kinds) == 2 else kinds[0])
+    m = np.zeros((len(a1), len(a2)), dtype=np.int32)
+    for i, row in enumerate(M or []):
         for j, v in enumerate(row):
             m[i, j] = v
-    return al.SubstitutionMatrix(alph, alph, m)
+    for a, b, v in entries or []:
+        if a < len(a1) and b < len(a2):
+            m[a, b] = v
+    return al.SubstitutionMatrix(a1, a2, m)
+
+
+def uniform(kinds):
+    return all(k == kinds[0] for k in kinds)
+
+
+def str_blocks(text):
+    """str(alignment) -> blocks (separated by an empty line) of rows of characters."""
+    if text == "":
+        return []
+    return [[list(line) for line in block.split("\n")] for block in text.split("\n\n")]
+
+
+def letters_as_codes(rows, letters=None):
+    """Rows of characters -> rows of codes of ONE alphabet ('-' = Gap, unknown = -99)."""
+    table = {ch: k for k, ch in enumerate(letters or LET)}
+    table["-"] = GAP
+    return [[table.get(ch, -99) for ch in row] for row in rows]
 
 
 MODES = ["all", "not_terminal", "shortest"]
@@ -129,20 +174,24 @@ SCORE_CASES = [[-2, -2, True], [-3, -1, True], [-3, -1, False], [-2, -2, False]]
 
 
 # --------------------------------------------------------------------------- observations
-def observe_helpers(A, M, sc, protein=False, names=None):
-    """Everything the 'helpers' event / MCAlign state compares, from the real API."""
+def observe_helpers(A, M, sc, kinds, names=None, seq_type=None, entries=None):
+    """Everything the 'helpers' event / an MCAlign or MCConv "alpha" state compares, from the real
+    API.  kinds: AlignConv!Kinds name of every row.  Symbol matrices, gapped strings, str() and the
+    sequences read back from FASTA are reported as characters (the specification decodes every row
+    with its own alphabet)."""
     import biotite.sequence.align as al
     import biotite.sequence.io.fasta as fasta
 
     np = _np()
-    letters = "ACDE" if protein else LET
-    table = {ch: k for k, ch in enumerate(letters)}
     nrows = len(A.sequences)
     obs = {}
     obs["codes"] = [[int(x) for x in row] for row in al.get_codes(A).tolist()]
-    obs["symbols"] = [[GAP if s is None else table[s] for s in row] for row in al.get_symbols(A)]
+    oc, v = call(lambda: al.get_symbols(A))
+    obs["symbols"] = [["-" if x is None else str(x) for x in row] for row in v] if oc == "ok" else [["exc", v]]
     gapped = A.get_gapped_sequences()
-    obs["gapped"] = [letters_to_codes(g, table) for g in gapped]
+    obs["gapped"] = [list(g) for g in gapped]
+    oc, v = call(lambda: str(A))
+    obs["str"] = str_blocks(v) if oc == "ok" else [[["exc", v]]]
     if nrows >= 2:
         oc, t = call(lambda: al.Alignment.trace_from_strings(gapped))
         obs["tfs"] = [[int(x) for x in row] for row in t.tolist()] if oc == "ok" else [[-99]]
@@ -154,13 +203,10 @@ def observe_helpers(A, M, sc, protein=False, names=None):
             fasta.set_alignment(f, A, names or [f"s{k + 1}" for k in range(nrows)])
             text = str(f)
             g = fasta.FastaFile.read(io.StringIO(text))
-            import biotite.sequence as bs
-
-            B = fasta.get_alignment(g, seq_type=bs.ProteinSequence if protein else None)
-            s, t = proj_aln(B)
-            return {"seqs": s, "tr": t}
+            B = fasta.get_alignment(g, seq_type=seq_type)
+            return {"seqs": [[str(x) for x in q] for q in B.sequences], "tr": proj_aln(B)[1]}
         oc, v = call(through_fasta)
-        obs["fasta"] = v if oc == "ok" else {"seqs": [[-99]], "tr": [], "exc": v}
+        obs["fasta"] = v if oc == "ok" else {"seqs": [["exc"]], "tr": [], "exc": v}
     else:
         obs["fasta"] = {"seqs": [], "tr": []}
     oc, v = call(lambda: al.find_terminal_gaps(A))
@@ -182,8 +228,8 @@ def observe_helpers(A, M, sc, protein=False, names=None):
             oc, v = call(lambda m=m: al.get_pairwise_sequence_identity(A, m))
         pid.append([oc, v.tolist() if oc == "ok" else []])
     obs["pident_raw"] = pid
-    mat = matrix_for(M, protein)
     scores = []
+    mat = matrix_for(M, kinds, entries) if sc else None
     for go, ge, term in sc:
         gp = int(go) if go == ge else (int(go), int(ge))
         oc, v = call(lambda gp=gp, term=term: al.score(A, mat, gp, bool(term)))
@@ -218,6 +264,14 @@ def index_real(A, cidx, ridx, variant=0):
     return ["ok", s, t]
 
 
+def _obs_as_codes(obs):
+    """MCAlign states hold rows of one alphabet (nuc) and expect codes: characters -> codes."""
+    obs["symbols"] = letters_as_codes(obs["symbols"])
+    obs["gapped"] = letters_as_codes(obs["gapped"])
+    obs["fasta"]["seqs"] = letters_as_codes(obs["fasta"]["seqs"])
+    return obs
+
+
 # --------------------------------------------------------------------------- S2: MCAlign states
 def warmup():
     import biotite.sequence.align  # noqa: F401
@@ -225,8 +279,13 @@ def warmup():
     import biotite.sequence.phylo  # noqa: F401
 
 
+_STAGE_OF = {"align": "S2-align", "alpha": "S2-conv", "fasta_r": "S2-conv"}
+
+
 def _mm(kind, what, inp, exp, got, **kw):
     d = {"kind": kind, "what": what, "input": inp, "expected": exp, "observed": got}
+    if kind in _STAGE_OF:
+        d["stage"] = _STAGE_OF[kind]
     d.update(kw)
     return d
 
@@ -249,8 +308,8 @@ def exec_align_states(item):
         stats["no_overlap"] += bool(res["dom"]) and res["ident"][1][0] == "Rejected"
         progress({"stage": "S2-align", "inp": inp})
         A = mkaln(inp["seqs"], inp["tr"])
-        obs = observe_helpers(A, SUBST_M, SCORE_CASES)
-        ncalls += 14
+        obs = _obs_as_codes(observe_helpers(A, SUBST_M, SCORE_CASES, ["nuc"] * len(inp["seqs"])))
+        ncalls += 15
         nrows, ncols = len(inp["seqs"]), len(inp["tr"])
         if any(GAP in col for col in inp["tr"]) and ncols >= 2:
             nontriv += 1
@@ -311,6 +370,150 @@ def exec_align_states(item):
     mid = states[len(states) // 2]
     return {"mismatch": mism[:200], "calls": ncalls, "cases": len(states), "nontrivial": nontriv, "stats": stats,
             "sample": {"inp": mid["inp"], "expected_term": mid["res"]["term"], "expected_score": mid["res"]["score"]}}
+
+
+# --------------------------------------------------------------------------- S2: MCConv states
+SCORE_CASES_K = [[-3, -1, True], [-2, -2, False]]          # MCConv!ScoreCases
+KINDS = ["nuc", "amb", "prot", "gen", "let"]              # AlignConv!Kinds
+ALT_CHARS = "_.~?"                                          # AlignConv!AltChar(k) = -(k + 1) <-> ALT_CHARS[k - 1]
+
+
+def text_rows(G, letters=None):
+    """FASTA token matrix -> strings (code -> letter, Gap -> '-', AltChar(k) -> ALT_CHARS[k - 1])."""
+    letters = letters or LET
+    return ["".join(letters[x] if x >= 0 else "-" if x == GAP else ALT_CHARS[-x - 2] for x in row) for row in G]
+
+
+def gap_option(gc, form):
+    chars = ["-" if x == GAP else ALT_CHARS[-x - 2] for x in gc]
+    return {"tuple": tuple(chars), "list": list(chars), "str": "".join(chars)}[form]
+
+
+def parse_fasta_real(rows, gc, form, seq_type=None, letters=None, via_text=True):
+    """fasta.get_alignment on the text, then set_alignment + get_alignment again with the same option.
+    form "default": the option is not passed.  -> ([oc, seqs, tr], [oc, seqs, tr] of the second pass)"""
+    import biotite.sequence.io.fasta as fasta
+
+    kw = {} if form == "default" else {"additional_gap_chars": gap_option(gc, form)}
+    if seq_type is not None:
+        kw["seq_type"] = seq_type
+    names = [f"s{k + 1}" for k in range(len(rows))]
+    table = {ch: k for k, ch in enumerate(letters or LET)}
+
+    def proj(B):
+        return [[table.get(str(x), -99) for x in q] for q in B.sequences], proj_aln(B)[1]
+
+    def first():
+        f = fasta.FastaFile()
+        for n, r in zip(names, rows):
+            f[n] = r
+        if via_text:
+            f = fasta.FastaFile.read(io.StringIO(str(f)))
+        return fasta.get_alignment(f, **kw)
+    oc, B = call(first)
+    if oc != "ok":
+        return [oc, [], [], B], ["none", [], []]
+    s, t = proj(B)
+
+    def again():
+        f = fasta.FastaFile()
+        fasta.set_alignment(f, B, names)
+        return fasta.get_alignment(fasta.FastaFile.read(io.StringIO(str(f))), **kw)
+    oc2, C = call(again)
+    if oc2 != "ok":
+        return ["ok", s, t], [oc2, [], [], C]
+    s2, t2 = proj(C)
+    return ["ok", s, t], ["ok", s2, t2]
+
+
+def exec_s2_states(item):
+    return exec_align_states(item) if item["family"] == "align" else exec_conv_states(item)
+
+
+def exec_conv_states(item):
+    from harness.tlabind.pool import progress
+
+    mism, ncalls, nontriv = [], 0, 0
+    stats = {"alpha": 0, "alpha_mixed": 0, "alpha_fasta": 0, "alpha_score": 0, "alpha_ident": 0,
+             "fasta_texts": 0, "fasta_cases": 0, "fasta_ok": 0, "fasta_refused": 0, "fasta_multi_char_ok": 0}
+    sample = None
+    states = _parse_states(item["texts"])
+    for st in states:
+        inp, res = st["inp"], st["res"]
+        progress({"stage": "S2-conv", "inp": inp})
+        if inp[0] == "alpha":
+            AA = inp[1]
+            kinds = AA["kinds"]
+            nrows, ncols = len(kinds), len(AA["tr"])
+            stats["alpha"] += 1
+            stats["alpha_mixed"] += not uniform(kinds)
+            A = mkaln(AA["seqs"], AA["tr"], kinds=kinds)
+            obs = observe_helpers(A, None, SCORE_CASES_K if res["sdom"] else [], kinds, entries=res["mat"])
+            ncalls += 12 + len(obs["score"])
+            if not uniform(kinds) and ncols >= 1:
+                nontriv += 1
+            if sample is None and not uniform(kinds) and ncols >= 2:
+                sample = {"inp": inp, "expected_symbols": res["syms"]}
+
+            def bad(what, exp, got):
+                mism.append(_mm("alpha", what, AA, exp, got))
+
+            for f, e in (("codes", "codes"), ("symbols", "syms"), ("gapped", "gapped"), ("str", "str"), ("tfs", "tfs")):
+                if obs[f] != res[e]:
+                    bad({"tfs": "trace_from_strings"}.get(f, f), res[e], obs[f])
+            if res["fdom"]:
+                stats["alpha_fasta"] += 1
+                if [obs["fasta"]["seqs"], obs["fasta"]["tr"]] != res["fasta"]:
+                    bad("fasta", res["fasta"], obs["fasta"])
+            if res["sdom"]:
+                stats["alpha_score"] += 1
+                for k, c in enumerate(SCORE_CASES_K):
+                    if obs["score"][k] != res["score"][k]:
+                        bad("score:" + json.dumps(c), res["score"][k], obs["score"][k])
+            if res["idom"]:
+                stats["alpha_ident"] += 1
+                for k, m in enumerate(MODES):
+                    eoc, num, den = res["ident"][k]
+                    goc, val = obs["ident_raw"][k]
+                    if goc != eoc or (eoc == "ok" and not frac_close(val, num, den)):
+                        bad("identity:" + m, res["ident"][k], obs["ident_raw"][k])
+                    if ncols >= 1:
+                        eoc, em = res["pident"][k]
+                        goc, gm = obs["pident_raw"][k]
+                        ok = goc == eoc
+                        if ok and eoc == "ok":
+                            ok = all(frac_close(gm[i][j], em[i][j][0], em[i][j][1])
+                                     for i in range(nrows) for j in range(nrows))
+                        if not ok:
+                            bad("pairwise_identity:" + m, res["pident"][k], obs["pident_raw"][k])
+        else:
+            G = inp[1]
+            rows = text_rows(G)
+            stats["fasta_texts"] += 1
+            for k, (gc, form, dom, eoc, eseqs, etr) in enumerate(res):
+                if not dom:
+                    continue            # a column of gap characters only: nothing is promised
+                stats["fasta_cases"] += 1
+                got, got2 = parse_fasta_real(rows, gc, form, via_text=(k % 2 == 0))
+                ncalls += 1
+                exp = [eoc, eseqs, etr]
+                src = {"text": rows, "tokens": G, "gap_chars": gap_option(gc, form), "form": form, "gc": gc}
+                if got[0] != eoc or (eoc == "ok" and got[:3] != exp):
+                    mism.append(_mm("fasta_r", "get_alignment", src, exp, got))
+                    continue
+                if eoc != "ok":
+                    stats["fasta_refused"] += 1
+                    continue
+                stats["fasta_ok"] += 1
+                used = {x for row in G for x in row if x <= -2}
+                if len(gc) >= 2 and len(used) >= 1:
+                    nontriv += 1
+                    stats["fasta_multi_char_ok"] += 1
+                ncalls += 2
+                if got2[:3] != exp:
+                    mism.append(_mm("fasta_r", "set_alignment+get_alignment", src, exp, got2))
+    return {"mismatch": mism[:200], "calls": ncalls, "cases": len(states), "nontrivial": nontriv, "stats": stats,
+            "sample": sample}
 
 
 # --------------------------------------------------------------------------- S2: MCCigar states
@@ -615,12 +818,12 @@ def exec_msa_states(item):
 
 
 # --------------------------------------------------------------------------- S3 generators
-def rand_trace(rng, lens, contiguous):
+def rand_trace(rng, lens, contiguous, maxcols=12):
     """A random valid trace over rows of the given lengths (indices may jump unless contiguous)."""
     R = len(lens)
     last = [-1] * R
     cols = []
-    target = rng.randint(0, 12)
+    target = rng.randint(0, 12) if maxcols == 12 else rng.randint(71, maxcols)
     while len(cols) < target:
         col = []
         for r in range(R):
@@ -683,21 +886,85 @@ def gen_s3_trace(item):
         if kind in ("helpers", "index", "cigar_w"):
             R = 2 if (kind == "cigar_w" and rng.random() < 0.7) else rng.randint(2, 5)
             K = rng.choice([2, 4])
-            protein = kind == "helpers" and rng.random() < 0.25
-            seqs = [[rng.randrange(K) for _ in range(rng.randint(1, 10))] for _ in range(R)]
-            tr = rand_trace(rng, [len(s) for s in seqs], contiguous=(kind == "cigar_w" or rng.random() < 0.5))
-            A = mkaln(seqs, tr, protein)
+            # two rows with more columns than one block of str() holds (the declarative operators of
+            # the specification are quadratic in the columns: two rows only)
+            long_rows = kind == "helpers" and rng.random() < 0.08
+            if long_rows:
+                R = 2
+            kinds = ["nuc"] * R
+            if kind == "helpers":
+                # the alphabet of every row (AlignConv!Kinds): one for all rows, or drawn row by row
+                u = rng.random()
+                if u < 0.35:
+                    pass
+                elif u < 0.5:
+                    kinds = ["prot"] * R
+                elif u < 0.6:
+                    kinds = [rng.choice(KINDS)] * R
+                else:
+                    kinds = [rng.choice(KINDS) for _ in range(R)]
+            sizes = [len(alphabet_of(k)) for k in kinds]
+            wide = [rng.random() < 0.5 for _ in range(R)]   # codes beyond the first K of the alphabet
+            seqs = [[rng.randrange(sizes[r] if wide[r] else min(K, sizes[r]))
+                     for _ in range(rng.randint(50, 80) if long_rows else rng.randint(1, 10))] for r in range(R)]
+            tr = rand_trace(rng, [len(s) for s in seqs], contiguous=(kind == "cigar_w" or long_rows or rng.random() < 0.5),
+                            maxcols=120 if long_rows else 12)
+            A = mkaln(seqs, tr, kinds=kinds)
             a = {"seqs": seqs, "tr": tr}
-            progress({"stage": "S3", "kind": kind, "A": a})
+            progress({"stage": "S3", "kind": kind, "A": a, "kinds": kinds})
         if kind == "helpers":
-            M = [[rng.randint(-3, 3) for _ in range(K)] for _ in range(K)]
-            sc = [[-rng.randint(1, 4), -rng.randint(1, 4), rng.random() < 0.5] for _ in range(2)]
-            sc.append([sc[0][0], sc[0][0], True])
-            obs = observe_helpers(A, M, sc, protein)
+            import biotite.sequence as bs
+
+            if R == 2 or uniform(kinds):
+                n1 = max(seqs[0] if R == 2 else [x for q in seqs for x in q]) + 1
+                n2 = max(seqs[1] if R == 2 else [x for q in seqs for x in q]) + 1
+                M = [[rng.randint(-3, 3) for _ in range(n2)] for _ in range(n1)]
+                sc = [[-rng.randint(1, 4), -rng.randint(1, 4), rng.random() < 0.5] for _ in range(2)]
+                sc.append([sc[0][0], sc[0][0], True])
+            else:
+                M, sc = [], []            # Dom_ScoreKinds: no matrix fits three rows of different alphabets
+            seq_type = None
+            if uniform(kinds) and kinds[0] in ("nuc", "amb", "prot") and rng.random() < 0.5:
+                seq_type = bs.ProteinSequence if kinds[0] == "prot" else bs.NucleotideSequence
+            obs = observe_helpers(A, M, sc, kinds, seq_type=seq_type)
             obs["ident"] = [[oc] + (_rational(v) if oc == "ok" else [0, 1]) for oc, v in obs.pop("ident_raw")]
             obs["pident"] = [[oc, [[_rational(x) for x in row] for row in m]] for oc, m in obs.pop("pident_raw")]
             obs["fasta"].pop("exc", None)
-            events.append({"op": "helpers", "A": a, "M": M, "sc": sc, "protein": protein, "obs": obs})
+            events.append({"op": "helpers", "A": a, "kinds": kinds, "M": M, "sc": sc,
+                           "seq_type": seq_type.__name__ if seq_type else "auto", "obs": obs})
+        elif kind == "fasta_r":
+            import biotite.sequence as bs
+
+            R, m = rng.randint(2, 5), rng.randint(1, 12)
+            protein = rng.random() < 0.3
+            letters = "ACDE" if protein else LET
+            form = rng.choice(["tuple", "list", "str", "default"])
+            if form == "default":
+                gc = [-2]
+            else:
+                gc = rng.sample([-2, -3, -4, -5], rng.choice([0, 1, 2, 2, 3, 3, 4]))
+                if rng.random() < 0.15:
+                    gc.insert(rng.randint(0, len(gc)), GAP)         # '-' listed among the further characters
+            declared = [x for x in gc if x <= -2]
+            G = [[0] * m for _ in range(R)]
+            for c in range(m):
+                keep = rng.randrange(R)                            # no column of gap characters only
+                for r in range(R):
+                    u = rng.random()
+                    if r == keep or u < 0.55:
+                        G[r][c] = rng.randrange(4)
+                    elif u < 0.7:
+                        G[r][c] = GAP
+                    elif declared and rng.random() < 0.85:
+                        G[r][c] = rng.choice(declared)
+                    else:
+                        G[r][c] = rng.choice([-2, -3, -4, -5])
+            seq_type = rng.choice([None, bs.ProteinSequence if protein else bs.NucleotideSequence])
+            rows = text_rows(G, letters)
+            progress({"stage": "S3", "kind": kind, "rows": rows, "gc": gc, "form": form})
+            got, got2 = parse_fasta_real(rows, gc, form, seq_type, letters, via_text=rng.random() < 0.5)
+            events.append({"op": "fasta_r", "G": G, "gc": gc, "form": form, "protein": protein, "text": rows,
+                           "seq_type": seq_type.__name__ if seq_type else "auto", "obs": got[:3], "obs2": got2[:3]})
         elif kind == "index":
             cidx = rand_index(rng, len(tr))
             if rng.random() < 0.5:
@@ -929,9 +1196,32 @@ def replay(record):
             exp = record["expected"]
             return {"observed": got, "expected": exp,
                     "mismatch": got[0] != exp[0] or (exp[0] == "ok" and got[1:3] != exp[1:3])}
-        obs = observe_helpers(A, SUBST_M, SCORE_CASES)
+        obs = _obs_as_codes(observe_helpers(A, SUBST_M, SCORE_CASES, ["nuc"] * len(inp["seqs"])))
         return {"observed": obs, "expected": record["expected"], "what": what,
                 "mismatch": _still_differs(what, record["expected"], obs)}
+    if kind == "alpha":
+        AA = record["input"]
+        A = mkaln(AA["seqs"], AA["tr"], kinds=AA["kinds"])
+        what = record["what"]
+        # score records need the matrix of the state: re-run the check for them
+        obs = observe_helpers(A, None, [], AA["kinds"])
+        key = {"symbols": "symbols", "gapped": "gapped", "str": "str", "codes": "codes", "trace_from_strings": "tfs"}.get(what)
+        if key:
+            return {"observed": obs[key], "expected": record["expected"], "what": what,
+                    "mismatch": obs[key] != record["expected"]}
+        if what == "fasta":
+            got = [obs["fasta"]["seqs"], obs["fasta"]["tr"]]
+            return {"observed": got, "expected": record["expected"], "mismatch": got != record["expected"]}
+        if what.split(":")[0] in ("identity", "pairwise_identity"):
+            return {"observed": obs, "expected": record["expected"], "what": what,
+                    "mismatch": _still_differs(what, record["expected"], obs)}
+        return {"error": "re-run the check for this record", "record": record}
+    if kind == "fasta_r":
+        src = record["input"]
+        got, got2 = parse_fasta_real(src["text"], src["gc"], src["form"])
+        g = got if record["what"] == "get_alignment" else got2
+        exp = record["expected"]
+        return {"observed": g, "expected": exp, "mismatch": g[0] != exp[0] or (exp[0] == "ok" and g[:3] != exp)}
     if kind == "cigar_w":
         inp = record["input"]
         A = mkaln(inp["A"]["seqs"], inp["A"]["tr"])
@@ -1039,7 +1329,7 @@ def _validate(ctx, traces, stage, selftest=False):
         return [], []
     d = T.scratch_dir("c11tr")
     tf = os.path.join(d, "traces.json")
-    drop = ("src", "exc", "gap", "term", "protein", "mode")
+    drop = ("src", "exc", "gap", "term", "protein", "mode", "text", "seq_type")
     with open(tf, "w") as f:
         json.dump([[{k: v for k, v in e.items() if k not in drop} for e in tr] for tr in traces], f)
     res = ctx.tlc("Trace", "Trace.cfg", stage=stage, workers=1 if len(traces) < 8 else 4,
@@ -1052,9 +1342,10 @@ def _validate(ctx, traces, stage, selftest=False):
     return mms, dgs
 
 
-HELPER_FLAGS = ["input_valid", "codes/gapped/symbols", "trace_from_strings", "fasta", "find_terminal_gaps",
+HELPER_FLAGS = ["input_valid", "codes/gapped/symbols/str", "trace_from_strings", "fasta", "find_terminal_gaps",
                 "remove_terminal_gaps", "remove_gaps", "identity", "pairwise_identity", "score"]
 FLAGS = {"helpers": HELPER_FLAGS, "index": ["outcome", "result", "valid_trace"],
+         "fasta_r": ["outcome", "sequences_and_valid_trace", "written_and_parsed_again"],
          "cigar_w": ["outcome", "ops", "readback_inputs", "read_back"], "cigar_r": ["outcome", "trace"],
          "msa_exc": ["no_exception"],
          "msa": ["one_row_per_input_in_order", "valid_trace", "gap_stripped_rows_are_inputs", "order_is_permutation",
@@ -1091,7 +1382,9 @@ def run(ctx):
         "Dom_Index1/2: bare integers are not alignment indices; at most one of (column index, row index) is an index array or mask",
         "Dom_CigarTrace: reference and segment rows advance by one inside the written window (a CIGAR cannot express a jump); the segment has an aligned base",
         "Dom_CigarFits: spec-built CIGARs have positive lengths and fit their sequences; P and B are documented as not implemented (Rejected)",
-        "Dom_Gapped / Dom_Names: FASTA alignments have >= 1 column, equal-length rows, distinct headers; symbols are compared as letters (sequence type given to get_alignment)",
+        "Dom_Gapped / Dom_Names / Dom_FastaText: FASTA alignments have >= 1 column, equal-length rows, distinct headers, no column of gap characters only; symbols are compared as letters; Dom_FastaStable: only letters that get_alignment hands back unchanged (upper case, valid for its type guess, not U/O/X)",
+        "Dom_Kinds: rows may have different alphabets (nuc, amb, prot, a plain Alphabet, a lower-case LetterAlphabet), all with single-character symbols and without '-'; Dom_ScoreKinds: score() is compared for two rows (matrix over the two alphabets) or rows of one alphabet; Dom_CodesMeanSymbols: identity helpers are compared where equal codes mean equal symbols in every column",
+        "additional_gap_chars: single characters that are not symbols ('_', '.', '~', '?', possibly '-' itself); a further gap character that the option does not declare is refused (any exception)",
         "score(): for more than two rows the code's definition is taken (sum of pairs + one gap penalty per row)",
         "remove_terminal_gaps with an empty overlap (start = stop): empty alignment or exception both accepted",
         "align_multiple: verdict = postcondition of the property (rows, order permutation, tree leaves) for every way of passing equal sequences as one object (Dom_Objs), and the caller's sequence objects hold the same symbols after the call; exact gap placement of the documented algorithm is a diagnostic",
@@ -1106,8 +1399,21 @@ def run(ctx):
     if not texts:
         raise Vacuity("MCAlign produced no computed states")
     ctx.exhaustive = True
-    items = [{"texts": ch} for ch in helpers.chunked(texts, 60)]
-    results = helpers.run_pool(ctx, "harness.drivers.c11:exec_align_states", items, stage="S2-align", item_timeout=120)
+    res, ctexts = _dump_texts(ctx, "MCConv", f"MCConv{tier}.cfg", "S1-conv", must_contain="phase = 1")
+    # one pool for both families (a pool start costs more than the calls); the FASTA texts (48 parses
+    # each) are spread over the items
+    nconv = max(1, len(ctexts) // 40)
+    items = ([{"family": "align", "texts": ch} for ch in helpers.chunked(texts, 60)]
+             + [{"family": "conv", "texts": ctexts[k::nconv]} for k in range(nconv)])
+    order = list(range(len(items)))
+    random.Random(0).shuffle(order)                      # even load per pool process; fixed order
+    shuffled = helpers.run_pool(ctx, "harness.drivers.c11:exec_s2_states", [items[k] for k in order],
+                                stage="S2-align/conv", item_timeout=300)
+    allres = [None] * len(items)
+    for k, r in zip(order, shuffled):
+        allres[k] = r
+    results = [r for it, r in zip(items, allres) if it["family"] == "align"]
+    cresults = [r for it, r in zip(items, allres) if it["family"] == "conv"]
     ncases = sum(r.get("cases", 0) for r in results)
     ctx.traces_validated += ncases
     ctx.evaluations += sum(r.get("calls", 0) for r in results)
@@ -1121,6 +1427,21 @@ def run(ctx):
         raise Vacuity("MCAlign: refusal outcomes (row without symbols / no overlap) never occurred")
     ctx.sample({"s2_align": results[len(results) // 2].get("sample")})
     ctx.log(f"S2-align: {ncases} alignments executed")
+    # ---------------------------------------------------------------- MCConv: S2 results
+    results = cresults
+    keys = ("alpha", "alpha_mixed", "alpha_fasta", "alpha_score", "alpha_ident", "fasta_texts", "fasta_cases",
+            "fasta_ok", "fasta_refused", "fasta_multi_char_ok")
+    st = {k: sum(r.get("stats", {}).get(k, 0) for r in results) for k in keys}
+    ctx.cov.update({"s2_conv_" + k: v for k, v in st.items()})
+    if min(st.values()) == 0:
+        raise Vacuity(f"MCConv: an input or outcome class never occurred: {st}")
+    ctx.traces_validated += sum(r.get("cases", 0) for r in results)
+    ctx.evaluations += sum(r.get("calls", 0) for r in results)
+    ctx.nontrivial += sum(r.get("nontrivial", 0) for r in results)
+    ctx.sample({"s2_conv": next((r["sample"] for r in results if r.get("sample")), None)})
+    ctx.log(f"S2-conv: {st['alpha']} typed alignments ({st['alpha_mixed']} with rows of different alphabets), "
+            f"{st['fasta_texts']} FASTA texts x option values = {st['fasta_cases']} parses "
+            f"({st['fasta_ok']} accepted, {st['fasta_multi_char_ok']} of them with >= 2 declared characters and one in use)")
     # ---------------------------------------------------------------- MCCigar: S1 + S2
     res, texts = _dump_texts(ctx, "MCCigar", f"MCCigar{tier}.cfg", "S1-cigar", must_contain="phase = 1")
     items = [{"texts": ch} for ch in helpers.chunked(texts, 150)]
@@ -1194,7 +1515,7 @@ def run(ctx):
     nitems = 16 if quick else 400
     per = 20 if quick else 40
     seeds = [ctx.rng.randrange(1 << 30) for _ in range(nitems)]
-    kinds = ["helpers", "helpers", "index", "cigar_w", "cigar_w", "cigar_r", "msa"]
+    kinds = ["helpers", "helpers", "index", "cigar_w", "cigar_w", "cigar_r", "msa", "fasta_r"]
     titems = [{"seed": s, "n": per, "kinds": kinds} for s in seeds]
     tres = helpers.run_pool(ctx, "harness.drivers.c11:gen_s3_trace", titems, stage="S3", item_timeout=300)
     traces = [r["events"] for r in tres if r and r.get("events")]
@@ -1210,14 +1531,27 @@ def run(ctx):
     ctx.nontrivial += sum(1 for t in traces for e in t
                           if (e["op"] in ("helpers", "index", "cigar_w") and len(e["A"]["tr"]) >= 2
                               and any(GAP in c for c in e["A"]["tr"]))
-                          or (e["op"] == "cigar_r" and len(e["c"]) >= 2) or (e["op"] == "msa" and len(e["merges"]) >= 2))
+                          or (e["op"] == "cigar_r" and len(e["c"]) >= 2) or (e["op"] == "msa" and len(e["merges"]) >= 2)
+                          or (e["op"] == "fasta_r" and e["obs"][0] == "ok" and any(x <= -2 for row in e["G"] for x in row)))
     ctx.cov.update({"s3_traces": len(traces), "s3_events": nev, "s3_events_per_kind": per_kind,
                     "s3_msa_diag_events": len(dgs)})
     if dgs:
         ctx.note(f"align_multiple (observed): {len(dgs)} runs with replay/order/tree diagnostics (no verdict)")
-    need = {"helpers", "index", "cigar_w", "cigar_r", "msa"}
+    need = {"helpers", "index", "cigar_w", "cigar_r", "msa", "fasta_r"}
     if need - set(per_kind):
         raise Vacuity(f"S3: event kinds never recorded: {sorted(need - set(per_kind))}")
+    helpers_ev = [e for t in traces for e in t if e["op"] == "helpers"]
+    fasta_ev = [e for t in traces for e in t if e["op"] == "fasta_r"]
+    ctx.cov.update({"s3_helpers_mixed_alphabets": sum(1 for e in helpers_ev if not uniform(e["kinds"])),
+                    "s3_helpers_more_than_one_str_block": sum(1 for e in helpers_ev if len(e["A"]["tr"]) > 70),
+                    "s3_fasta_accepted": sum(1 for e in fasta_ev if e["obs"][0] == "ok"),
+                    "s3_fasta_refused": sum(1 for e in fasta_ev if e["obs"][0] != "ok"),
+                    "s3_fasta_two_or_more_gap_chars": sum(1 for e in fasta_ev if e["obs"][0] == "ok"
+                                                          and len([x for x in e["gc"] if x <= -2]) >= 2)})
+    if not any(not uniform(e["kinds"]) for e in helpers_ev):
+        raise Vacuity("S3: no alignment with rows of different alphabets")
+    if not any(e["obs"][0] == "ok" for e in fasta_ev):
+        raise Vacuity("S3: no FASTA text was accepted")
     ctx.cov["s3_msa_documented_refusals"] = sum(r.get("refused", 0) for r in tres if r)
     ctx.cov["s3_msa_shared_object"] = sum(1 for t in traces for e in t if e["op"] == "msa" and
                                           e["objs"] != no_sharing(len(e["objs"])))
@@ -1244,7 +1578,7 @@ def run(ctx):
 
 
 MANIFEST = {
-    "technique": "TLA+ specifications of alignment traces and their conversions, of the CIGAR writer/reader and of the progressive merge machine (specs/C11) model-checked by TLC; every enumerated alignment / option set / CIGAR / merge history executed against the real API; recorded random executions re-computed by TLC",
-    "level_text": "TLC checks the conversion laws (gapped strings / code and symbol matrices / FASTA and back = renumbered aligned part, identity on complete traces; terminal-gap interval = set of non-terminal columns; flag-driven gap scan = runs; Read(Write(A, opts), pos) = Normalise(A, opts) for every option combination; Write(Read(c)) = c on the writer's image; group invariants and postcondition of the progressive merge machine) on all pairwise traces over lengths <= 3 (jumps allowed), three-row traces over short rows, all CIGARs with <= 3 operations and all merge histories of <= 3 sequences; every enumerated case is then executed against the real functions in crash-isolated processes and compared with TLC's values, including align_multiple forced through every merge history (guide tree, distance matrix and rebound align_optimal) under every sharing pattern of the input objects (equal sequences passed as one and the same object), with the caller's objects compared before and after the call; random alignments (<= 5 rows, <= 12 columns), CIGARs and sequence sets (2-8 sequences) are recorded from the real API and re-computed by TLC.",
-    "level_note": "Bounded: exhaustive only inside the stated bounds; beyond them only recorded executions. Which pairwise alignment align_multiple chooses is C08's subject: the machine accepts any global trace. Exact gap placement of align_multiple, order = tree leaf order and the merge replay are diagnostics (the property states only the postcondition). Row selections may leave all-gap columns (ValidSubTrace); bare integer indices, negative-step column selections, non-contiguous traces for CIGAR and E-value statistics are outside the domain. Trusted: TLC, the TLA+ value parser, the projections, numpy. multiple.pyx cannot be recompiled here (no Cython).",
+    "technique": "TLA+ specifications of alignment traces and their conversions, of the CIGAR writer/reader and of the progressive merge machine (specs/C11) model-checked by TLC; every enumerated alignment / typed alignment (rows of different alphabets) / FASTA text with its reader option / option set / CIGAR / merge history executed against the real API; recorded random executions re-computed by TLC",
+    "level_text": "TLC checks the conversion laws (gapped strings / code and symbol matrices / FASTA and back = renumbered aligned part, identity on complete traces; terminal-gap interval = set of non-terminal columns; flag-driven gap scan = runs; Read(Write(A, opts), pos) = Normalise(A, opts) for every option combination; Write(Read(c)) = c on the writer's image; group invariants and postcondition of the progressive merge machine) on all pairwise traces over lengths <= 3 (jumps allowed), three-row traces over short rows, all typed alignments over every ordered pair (and short triples) of five alphabets with per-row decoding (get_symbols = cell-by-cell decoding, str() blocks, letters and back, score over two alphabets), all two-row FASTA texts with <= 2 columns over '-' and three further gap characters under all 48 values of additional_gap_chars (0..3 characters, every order, tuple / list / str), all CIGARs with <= 3 operations and all merge histories of <= 3 sequences; every enumerated case is then executed against the real functions in crash-isolated processes and compared with TLC's values, including align_multiple forced through every merge history (guide tree, distance matrix and rebound align_optimal) under every sharing pattern of the input objects (equal sequences passed as one and the same object), with the caller's objects compared before and after the call; random alignments (<= 5 rows, <= 12 columns, some beyond one 70-column block of str(); rows of one or of different alphabets), FASTA texts with random gap-character options, CIGARs and sequence sets (2-8 sequences) are recorded from the real API and re-computed by TLC.",
+    "level_note": "Bounded: exhaustive only inside the stated bounds; beyond them only recorded executions. Which pairwise alignment align_multiple chooses is C08's subject: the machine accepts any global trace. Exact gap placement of align_multiple, order = tree leaf order and the merge replay are diagnostics (the property states only the postcondition). Row selections may leave all-gap columns (ValidSubTrace); bare integer indices, negative-step column selections, alphabets with multi-character symbols or a '-' symbol, FASTA letters that get_alignment rewrites (lower case, U/O/X), identity of rows whose equal codes are different symbols, non-contiguous traces for CIGAR and E-value statistics are outside the domain. Trusted: TLC, the TLA+ value parser, the projections, numpy. multiple.pyx cannot be recompiled here (no Cython).",
 }
